@@ -663,7 +663,9 @@ pub fn checked_build(ctx: &Ctx, spec: &NodeSpec) -> BuildObs {
                     continue;
                 }
                 let c = canon(&e.planned.spelled);
-                if e.planned.ws_name || after_first_failure.contains(&e.planned.spelled) {
+                if e.planned.ws_name {
+                    // rejected, hence not processed: must not be named
+                } else if after_first_failure.contains(&e.planned.spelled) {
                     optional.insert(c);
                 } else {
                     want.insert(c);
